@@ -73,12 +73,19 @@ Min(S) == CHOOSE x \in S : \A y \in S : x <= y
 OpKey(op) == IF op.o = "set" THEN "*" ELSE IF op.o = "clr" THEN "__any" ELSE
              IF Has(op, "k") THEN op.k ELSE "__bad"
 
+\* the order of a map's keys (take / drop count entries in key order); the scripts use these keys
+KeyOrder == <<"k1", "k2", "k3", "k4">>
+SortedKeys(view) == SelectSeq(KeyOrder, LAMBDA k : \E x \in view : x[1] = k)
+FirstKeys(view, n) == LET ks == SortedKeys(view) IN {ks[i] : i \in 1..(IF n < Len(ks) THEN n ELSE Len(ks))}
+
 ApplyOp(view, op) ==
     IF op.o = "set" THEN {<<"*", op.v>>}
     ELSE IF op.o = "upd" THEN {x \in view : x[1] # op.k} \cup {<<op.k, op.v>>}
     ELSE IF op.o = "rem" THEN {x \in view : x[1] # op.k}
     ELSE IF op.o = "clr" THEN {}
-    ELSE view
+    ELSE IF op.o = "take" THEN {x \in view : x[1] \in FirstKeys(view, op.n)}
+    ELSE IF op.o = "drop" THEN {x \in view : x[1] \notin FirstKeys(view, op.n)}
+    ELSE view          \* "bad": a body that is no map message, passed through by a map-event downlink
 
 Affects(op, key) == op.o = "clr" \/ OpKey(op) = key
 Conflict(a, b) == a.o = "clr" \/ b.o = "clr" \/ OpKey(a) = OpKey(b)
@@ -88,8 +95,11 @@ Conflict(a, b) == a.o = "clr" \/ b.o = "clr" \/ OpKey(a) = OpKey(b)
 
 NoCons == [att |-> FALSE]
 
-PInit(kind, enabled) ==
-    [kind    |-> kind,
+PInit(kind, enabled, strategy) ==
+    [kind    |-> kind,          \* "value" | "map" | "mapevent" (map downlink without interpretation)
+     strat   |-> strategy,      \* what the runtime is told to do with a malformed frame: "abort" | "ignore"
+     nbad    |-> 0,             \* malformed frames the lane's side sent (map downlink)
+     badpre  |-> FALSE,         \* ... one of them before the lane sent linked
      enabled |-> enabled,       \* ids of OPEN known findings (deviation actions allowed)
      st      |-> "ok",          \* "ok" | "fail"
      why     |-> "",            \* first failure
@@ -97,8 +107,8 @@ PInit(kind, enabled) ==
      ep      |-> 0,             \* number of settle barriers seen
      N       |-> <<>>,          \* notifications the lane sent: [n, ep]
      views   |-> <<>>,          \* views[i] = lane state after N[1..i]
-     closed  |-> "no",          \* "no" | "unlinked" | "stop"
-     cpos    |-> 0,             \* Len(N) when the lane sent unlinked
+     closed  |-> "no",          \* "no" | "unlinked" | "stop" | "abort" (malformed frame, strategy abort)
+     cpos    |-> 0,             \* Len(N) when the link closed
      cons    |-> <<>>,          \* sequence of consumer records (index = order of attach)
      cmds    |-> <<>>,          \* commands written: [c, op, gl = commands the lane had read by then]
      got     |-> <<>>,          \* command ops read by the lane, in order
@@ -124,6 +134,10 @@ SyncedSent(p) == \E i \in 1..Len(p.N) : p.N[i].n.t = "synced"
 \* the consumer attached no earlier (in happens-before) than the lane's linked
 Late(p, x) == \E i \in 1..Len(p.N) : p.N[i].n.t = "linked" /\ p.N[i].ep <= x.aep
 
+IsMap(p) == p.kind \in {"map", "mapevent"}
+\* nothing the lane sends after the link has closed can be delivered
+Limit(p) == IF p.closed = "no" THEN Len(p.N) ELSE p.cpos
+
 Live(x) == x.ph \in {"att", "linked", "synced"}
 Registered(x) == (x.ph = "synced") \/ (x.ph = "linked" /\ ~x.sync /\ x.mode = "norm")
 
@@ -136,6 +150,7 @@ OnAttach(p, e) ==
         x == [c |-> e.c, sync |-> e.sync, ph |-> "att", pos |-> {}, view |-> {}, aep |-> p.ep,
               mids |-> mids, mode |-> "norm", lpos |-> 0, nev |-> 0,
               sy |-> FALSE,         \* has read synced
+              nempty |-> 0,         \* events without a body it has read (KF F10d)
               dpos |-> {}]          \* candidate positions if the F10c deviation was taken at synced
     IN IF CIdx(p, e.c) # 0 THEN Fail(p, "harness: consumer attached twice")
        ELSE [p EXCEPT !.cons = Append(@, x)]
@@ -144,13 +159,26 @@ OnAttachFail(p, e) ==
     LET i == CIdx(p, e.c) IN
     IF i = 0 THEN p ELSE [p EXCEPT !.cons[i].ph = "never"]
 
-OnCSend(p, e) == [p EXCEPT !.cmds = Append(@, [c |-> e.c, op |-> e.op, gl |-> Len(p.got)])]
+\* cf = the consumer had already written something that is no command at all (op "badcmd"): the
+\* runtime stops reading its commands there (Failed -> terminate), its notifications go on
+OnCSend(p, e) ==
+    LET cf == \E j \in 1..Len(p.cmds) : p.cmds[j].c = e.c /\ p.cmds[j].op.o = "badcmd" IN
+    [p EXCEPT !.cmds = Append(@, [c |-> e.c, op |-> e.op, gl |-> Len(p.got), cf |-> cf])]
 
 OnCDrop(p, e) ==
     LET i == CIdx(p, e.c) IN
     IF i = 0 THEN p ELSE [p EXCEPT !.cons[i].ph = IF @ = "never" THEN @ ELSE "dropped"]
 
+\* A malformed frame (an event body that is no map message, map downlink with interpretation).
+\* ignore: the sessions are exactly the sessions without that frame - it is not part of N.
+\* abort : the link closes there, as if the lane had unlinked.
+OnBadFrame(p) ==
+    IF p.strat = "ignore" THEN [p EXCEPT !.nbad = @ + 1, !.badpre = @ \/ ~LinkedSent(p)]
+    ELSE IF p.closed = "no" THEN [p EXCEPT !.nbad = @ + 1, !.closed = "abort", !.cpos = Len(p.N)]
+    ELSE [p EXCEPT !.nbad = @ + 1]
+
 OnRSend(p, e) ==
+    IF Has(e, "bad") /\ e.bad THEN OnBadFrame(p) ELSE
     LET n == e.n
         q == [p EXCEPT !.N = Append(@, [n |-> n, ep |-> p.ep]),
                        !.views = Append(@, IF n.t = "event" THEN ApplyOp(LastView(p), n.op) ELSE LastView(p))]
@@ -184,8 +212,8 @@ OnLinked(p, i) ==
     ELSE [p EXCEPT !.cons[i].ph = "linked", !.cons[i].pos = 0..Len(p.N), !.cons[i].lpos = Len(p.N)]
 
 \* the candidate positions after reading event op: gap-free (strict) or in order only (loose)
-Strict(p, S, op) == {j \in 1..Len(p.N) : IsEv(p, j) /\ p.N[j].n.op = op /\ \E q \in S : NextEv(p, q) = j}
-Loose(p, S, op)  == {j \in 1..Len(p.N) : IsEv(p, j) /\ p.N[j].n.op = op /\ \E q \in S : q < j}
+Strict(p, S, op) == {j \in 1..Limit(p) : IsEv(p, j) /\ p.N[j].n.op = op /\ \E q \in S : NextEv(p, q) = j}
+Loose(p, S, op)  == {j \in 1..Limit(p) : IsEv(p, j) /\ p.N[j].n.op = op /\ \E q \in S : q < j}
 
 OnEvent(p, i, op) ==
     LET x == p.cons[i]
@@ -196,6 +224,12 @@ OnEvent(p, i, op) ==
                                !.cons[i].nev = @ + 1]
     IN
     IF x.ph \notin {"linked", "synced"} THEN Fail(p, "S1: event before linked / after unlinked")
+    \* KF F10d: with the IGNORE strategy a malformed frame is not skipped: after the failed
+    \* interpretation the (cleared, empty) buffer is still forwarded as an event
+    ELSE IF op.o = "empty" THEN
+        IF "F10d" \in p.enabled /\ p.kind = "map" /\ p.strat = "ignore" /\ x.nempty < p.nbad
+          THEN Deviate([p EXCEPT !.cons[i].nempty = @ + 1], "F10d")
+          ELSE Fail(p, "S2: event without a body (not a map message) delivered")
     ELSE IF Registered(x) THEN
         IF strict # {} THEN upd(strict, dstrict)
         \* KF F10c (see OnSynced): the cut chosen at synced does not work out, the deviation does
@@ -215,7 +249,7 @@ OnSynced(p, i) ==
         \* KF F10c: a map-downlink SYNC consumer that attached while another consumer's sync was
         \* outstanding is told synced with the other's (for it partial) snapshot; it then simply
         \* continues from where it was (its own snapshot arrives later as ordinary events)
-        f10c == "F10c" \in p.enabled /\ p.kind = "map" /\ x.sync /\ x.mids
+        f10c == "F10c" \in p.enabled /\ IsMap(p) /\ x.sync /\ x.mids
     IN
     IF x.ph = "synced" THEN p                                        \* repeated synced: no-op
     ELSE IF x.ph # "linked" THEN Fail(p, "S1: synced before linked / after unlinked")
@@ -235,7 +269,7 @@ OnUnlinked(p, i) ==
     LET x == p.cons[i] IN
     IF x.ph \notin {"att", "linked", "synced"} THEN Fail(p, "S6: unlinked twice")
     ELSE IF p.closed = "no" THEN Fail(p, "S6: unlinked although the link was not closed")
-    ELSE IF p.closed = "unlinked" /\ Registered(x) /\ ~Complete(p, x, p.cpos)
+    ELSE IF p.closed \in {"unlinked", "abort"} /\ Registered(x) /\ ~Complete(p, x, p.cpos)
         THEN IF CompleteFrom(p, x.dpos, p.cpos)                                          \* KF F10c, see OnSynced
                THEN Deviate([p EXCEPT !.cons[i].ph = "unlinked"], "F10c")
              ELSE IF "F10b" \in p.enabled /\ p.kind = "value" /\ ~x.sync /\ Late(p, x)     \* KF F10b, see OnEvent
@@ -280,7 +314,11 @@ Undelivered == "S3: events of the lane never delivered"
 
 \* the deviation (if any) that explains consumer x's unmet obligation
 Excuse(p, x) ==
-    IF SessionDebt(p, x) # Undelivered THEN ""
+    \* KF F10d (see OnEvent): the not-skipped malformed frame arrived while consumers were waiting
+    \* for linked; the read task then believes it has no consumers and never forwards linked
+    IF SessionDebt(p, x) = "S5: never linked"
+      THEN IF "F10d" \in p.enabled /\ p.kind = "map" /\ p.strat = "ignore" /\ p.badpre THEN "F10d" ELSE ""
+    ELSE IF SessionDebt(p, x) # Undelivered THEN ""
     ELSE IF x.ph = "synced" /\ CompleteFrom(p, x.dpos, Len(p.N)) THEN "F10c"
     ELSE IF IsF10b(p, x) THEN "F10b"
     ELSE ""
@@ -319,9 +357,13 @@ OrderOK(p, f) ==
 
 CmdKeys(p) == {OpKey(p.cmds[j].op) : j \in 1..Len(p.cmds)} \cup {"__any"}
 
+\* commands the lane is owed at all: real commands (not garbage, key valid UTF-8) written before
+\* their consumer's command stream broke
+Owed(p, j) == p.cmds[j].op.o # "badcmd" /\ ~Has(p.cmds[j].op, "badkey") /\ ~p.cmds[j].cf
+
 \* C3 for one key: the commands that are newer than the last one the lane applied
 Stale(p, f, key) ==
-    LET want == {j \in 1..Len(p.cmds) : Affects(p.cmds[j].op, key)
+    LET want == {j \in 1..Len(p.cmds) : /\ Affects(p.cmds[j].op, key) /\ Owed(p, j)
                                         /\ (~Dropped(p, p.cmds[j].c) \/ \E i \in 1..Len(p.got) : f[i] = j)}
         gk == {i \in 1..Len(p.got) : Affects(p.got[i], key)}
     IN IF want = {} THEN {}
